@@ -55,10 +55,13 @@ def verify(sid):
         shutil.rmtree(wt, ignore_errors=True)
 
 def main():
+    force = "--force" in sys.argv
+    if force:
+        sys.argv.remove("--force")
     ids = sys.argv[1:] or sorted(os.listdir(SEEDS))
     os.makedirs("/tmp/vs", exist_ok=True)
     for sid in ids:
-        if os.path.exists(os.path.join(OUT, sid, "meta.json")):
+        if os.path.exists(os.path.join(OUT, sid, "meta.json")) and not force:
             continue
         r = verify(sid)
         print(sid, "CONFIRMED" if r.get("confirmed") else "NOT-CONFIRMED", {k: r[k] for k in ("clean_exit", "mutant_exit", "tests_rc", "apply", "clean") if k in r}, flush=True)
